@@ -209,10 +209,9 @@ func (p *gcpPicker) getLeastBusySubConnRef() (*subConnRef, error) {
 		return minScRef, nil
 	}
 
-	if p.gb.cfg.GetChannelPool().GetMaxSize() == 0 || p.gb.getConnectionPoolSize() < int(p.gb.cfg.GetChannelPool().GetMaxSize()) {
-		// Ask balancer to create new subconn when all current subconns are busy and
+	if p.gb.newSubConnBelowMax() {
+		// Asked balancer to create new subconn when all current subconns are busy and
 		// the connection pool still has capacity (either unlimited or maxSize is not reached).
-		p.gb.newSubConn()
 
 		// Let this picker return ErrNoSubConnAvailable because it needs some time
 		// for the subconn to be READY.
